@@ -7,7 +7,10 @@ fail=0
 for d in /verif/seeded/*/; do
   id=$(basename $d); prop=${id%%-*}
   [ -n "${1:-}" ] && [ "$1" != "$prop" ] && continue
-  git -C /repo apply ${d}patch.diff || { echo "$id: patch does not apply"; fail=1; continue; }
+  patch=${d}patch.diff
+  der=$(ls ${d}derived_patch_*.diff 2>/dev/null | head -1)
+  [ -n "$der" ] && patch=$der
+  git -C /repo apply $patch || { echo "$id: patch does not apply"; fail=1; continue; }
   ./check $prop --tier quick --no-evidence > ${d}check_current.txt 2>&1; rc=$?
   git -C /repo checkout -- .
   if [ $rc -eq 1 ] && grep -q "^VIOLATION property=$prop" ${d}check_current.txt; then
